@@ -4,6 +4,7 @@ from __future__ import annotations
 
 from typing import Any, Mapping, cast
 
+import numpy as np
 import onnx_ir as ir
 from jax2onnx._compat.jax import (
     Primitive,
@@ -53,6 +54,103 @@ def lower_unary_elementwise(
         x_shape = tuple(getattr(getattr(x_var, "aval", None), "shape", ()))
         _stamp_type_and_shape(result, x_shape)
 
+    ctx.bind_value_for_var(y_var, result)
+
+
+def needs_double_parameters(
+    ctx: LoweringContextProtocol, eqn: Any, *params: float
+) -> bool:
+    """True when an activation parameter would lose precision as an ONNX attribute.
+
+    ONNX attributes of type FLOAT are single precision by definition.  Under
+    ``enable_double_precision`` a parameter that is not itself a float32 value
+    (0.1, 0.01, 1/6, the SELU constants) would reach the model rounded to float32,
+    so the double-precision result would agree with JAX only to ~1e-8.  Such
+    parameters have to be materialised as DOUBLE tensors instead.
+    """
+    if not bool(getattr(ctx.builder, "enable_double_precision", False)):
+        return False
+    in_dtype = np.dtype(getattr(eqn.invars[0].aval, "dtype", np.float32))
+    if in_dtype not in (np.dtype(np.float32), np.dtype(np.float64)):
+        return False  # float16 / bfloat16 operands are not carried as DOUBLE
+    return any(float(np.float32(p)) != float(p) for p in params)
+
+
+def lower_scaled_exp_linear_in_double(
+    ctx: LoweringContextProtocol,
+    eqn: Any,
+    *,
+    kind: str,
+    alpha: float,
+    gamma: float = 1.0,
+    beta: float = 0.0,
+    input_hint: str,
+    output_hint: str,
+) -> None:
+    """Lower LeakyRelu / Elu / Selu / HardSigmoid with DOUBLE tensor parameters.
+
+    kind = "leaky_relu":   where(x < 0, alpha * x, x)
+    kind = "elu":          where(x < 0, alpha * (exp(x) - 1), x)
+    kind = "selu":         gamma * where(x < 0, alpha * (exp(x) - 1), x)
+    kind = "hard_sigmoid": max(0, min(1, alpha * x + beta))
+    """
+    (x_var,) = eqn.invars
+    (y_var,) = eqn.outvars
+    x_val = ctx.get_value_for_var(x_var, name_hint=ctx.fresh_name(input_hint))
+    out_spec = ctx.get_value_for_var(y_var, name_hint=ctx.fresh_name(output_hint))
+    desired_name = getattr(out_spec, "name", None) or ctx.fresh_name(output_hint)
+    producer = getattr(out_spec, "producer", None)
+    if callable(producer) and producer() is not None:
+        desired_name = ctx.fresh_name(output_hint)
+
+    x_type = getattr(x_val, "type", None)
+    x_shape = getattr(x_val, "shape", None)
+
+    def _const(tag: str, value: float) -> ir.Value:
+        return cast(
+            ir.Value,
+            ctx.builder.add_initializer_from_scalar(
+                name=ctx.fresh_name(f"{output_hint}_{tag}"),
+                value=np.asarray(value, dtype=np.float64),
+            ),
+        )
+
+    def _like_x(value: ir.Value, *, boolean: bool = False) -> ir.Value:
+        value.type = ir.TensorType(ir.DataType.BOOL) if boolean else x_type
+        value.shape = x_shape
+        return value
+
+    def _op(name: str, *args: ir.Value, tag: str, boolean: bool = False) -> ir.Value:
+        out = getattr(ctx.builder, name)(
+            *args, _outputs=[ctx.fresh_name(f"{output_hint}_{tag}")]
+        )
+        return _like_x(cast(ir.Value, out), boolean=boolean)
+
+    if kind == "hard_sigmoid":
+        scaled = _op("Mul", x_val, _const("alpha", alpha), tag="scaled")
+        shifted = _op("Add", scaled, _const("beta", beta), tag="shifted")
+        upper = _op("Min", shifted, _const("one", 1.0), tag="upper")
+        result = ctx.builder.Max(upper, _const("zero", 0.0), _outputs=[desired_name])
+    else:
+        negative = _op("Less", x_val, _const("zero", 0.0), tag="neg", boolean=True)
+        if kind == "leaky_relu":
+            branch = _op("Mul", x_val, _const("alpha", alpha), tag="scaled")
+        elif kind in ("elu", "selu"):
+            exp_x = _op("Exp", x_val, tag="exp")
+            expm1 = _op("Sub", exp_x, _const("one", 1.0), tag="expm1")
+            branch = _op("Mul", expm1, _const("alpha", alpha), tag="scaled")
+        else:
+            raise ValueError(f"unknown activation kind {kind!r}")
+        if kind == "selu":
+            selected = _op("Where", negative, branch, x_val, tag="selected")
+            result = ctx.builder.Mul(
+                selected, _const("gamma", gamma), _outputs=[desired_name]
+            )
+        else:
+            result = ctx.builder.Where(negative, branch, x_val, _outputs=[desired_name])
+    result = cast(ir.Value, result)
+    result.type = getattr(out_spec, "type", None) or x_type
+    result.shape = getattr(out_spec, "shape", None) or x_shape
     ctx.bind_value_for_var(y_var, result)
 
 
